@@ -351,10 +351,28 @@ pub fn dependency_graph(c: &mut Choices, plant_cycle: bool) -> GraphCase
 		// one is guaranteed, so the expected code must be among the codes
 	}
 	// sizes / values in topological order for the acyclic case
+	// (constants and structures live in different name spaces: now and then
+	// a structure bears the name of a constant)
+	let namesake: Option<(usize, usize)> = if c.chance(1, 4)
+	{
+		match (kinds.iter().position(|k| *k == Kind::Const), kinds.iter().rposition(|k| *k == Kind::Struct))
+		{
+			(Some(a), Some(b)) => Some((a, b)),
+			_ => None,
+		}
+	}
+	else
+	{
+		None
+	};
 	let name = |k: usize| match kinds[k]
 	{
 		Kind::Const => format!("K{}", k),
-		Kind::Struct => format!("T{}", k),
+		Kind::Struct => match namesake
+		{
+			Some((a, b)) if b == k => format!("K{}", a),
+			_ => format!("T{}", k),
+		},
 	};
 	let mut decls: Vec<String> = Vec::new();
 	let mut value: Vec<u128> = vec![0; n]; // const value or struct size
@@ -822,7 +840,26 @@ impl Stream for TypeTerms
 		}
 		else if valid && !must_accept
 		{
-			out.class("term:valid-but-position-not-settled");
+			// placement (value_type.rs can_be_struct_member, E356): views,
+			// endless arrays and pointers to views are no structure members
+			let outer = wrappers.first().copied().unwrap_or("");
+			let pointer_to_view = wrappers.len() >= 2 && wrappers[0] == "&" && wrappers[1] == "[]";
+			let misplaced = position == 1 && (outer == "[]" || outer == "[..]" || pointer_to_view);
+			if misplaced && o.ok
+			{
+				out.fail(
+					format!("type that cannot be placed in {} position accepted (E356 rule): {}", what, shape),
+					json!({"source": src, "type": ty}),
+				);
+			}
+			else if misplaced
+			{
+				out.class("term:valid-but-misplaced");
+			}
+			else
+			{
+				out.class("term:valid-but-position-not-settled");
+			}
 		}
 		if ctx.want_sample
 		{
